@@ -70,6 +70,16 @@ CHECKS = {
         "every array of the deep copy leaving the source unchanged.",
         "Frame formats cannot represent an absent label array (skipped there); CSV floats exact for dyadic values, 1e-12 relative otherwise (pandas parser).",
         "DESIGN.md §3 C16"),
+    "C08": (
+        "Hypothesis-generated programs of stochastic API calls; differential re-execution after re-seeding behind different histories, explicit-rng isolation with byte-wise global-stream comparison, fresh-subprocess comparison",
+        "Generated programs (1..8 calls) over mating protocols, phenotyping, sampling utilities, configuration sampling, prng.spawn and "
+        "wrappers, every optimiser class, apply_jitter, EMBV factory and select(): (A) seed(s); run(P) after two different prefix histories "
+        "gives bit-identical outputs, also in two fresh interpreters; (B) a component given its own generator returns identical outputs under "
+        "different global seeds and leaves random/numpy.random states byte-identical. Plus one enumerated representative call per component "
+        "class. Calls matching the known findings (pymoo-based optimisers, Random*Selection.problem, UnconstrainedSetGeneticAlgorithm) have "
+        "exactly the affected clauses skipped and counted.",
+        "Prior interpreter histories are sampled (prefix programs + direct draws), not enumerated; hidden entropy that never reaches an output is invisible.",
+        "DESIGN.md §3 C08"),
     "C09": (
         "Hypothesis-generated genotype matrices vs exact integer/Fraction definitions (exact 0/1 boundary)",
         "Generated-input search: phased/unphased matrices (ploidy 1/2/4, 1..300 taxa with the sizes where "
@@ -88,6 +98,15 @@ CHECKS = {
         "never reappear, limits coincide with the common value when everything is fixed.",
         "Histories are bounded (<= 6 steps, <= 107 taxa, <= 9 loci); diploid binary coding.",
         "DESIGN.md §3 C10"),
+    "C20": (
+        "Exhaustive enumeration (nrep<=2, ngen<=2, 4^4 operator behaviours) + Hypothesis-generated evolve/advance scripts; trace conformance against a value-semantics reference interpreter",
+        "Instrumented operators (pure / return-same / mutate-in-place / mutate-then-new) record what they receive; a reference interpreter "
+        "written from the statement predicts the exact trace (operator order, replicate, t_cur, t_max, content fingerprints, mating "
+        "configuration hand-over, logging after every step). Every replicate's first evaluation sees contents equal to the initial state, the "
+        "stored start containers deep-equal their snapshot and share no mutable object or array memory with anything an operator received. "
+        "The small block is enumerated completely (4608 cases); random scripts add nested containers, evolve-after-evolve and advance.",
+        "Hand-over is compared by content, not identity; partially given start state is not asserted (statement silent).",
+        "DESIGN.md §3 C20"),
 }
 
 NOT_APPLICABLE = {
